@@ -155,6 +155,7 @@ func concModel(init *Model) porcupine.Model {
 }
 
 type world struct {
+	frontier int64 // number of creations so far in the abort-hammer histories
 	dead   [][]byte
 	dirs   [][]byte
 	files  [][]byte
@@ -188,10 +189,14 @@ func genConcOp(r *Rng, w *world, mine *[][]byte, uid *uint64, cfg ConcCfg) *Op {
 			return &Op{K: OpCreate, H: d, Name: w.names[r.Intn(2)]}
 		case x < 65:
 			return &Op{K: OpRemove, H: d, Name: w.names[r.Intn(2)]}
-		case x < 85 && len(w.dead) > 0: // a dead handle whose number is being handed out again
-			return &Op{K: OpGetattr, H: w.dead[r.Intn(len(w.dead))]}
+		case x < 85 && len(w.dead) > 0:
+			// a dead handle whose number is being handed out again right now
+			// (the allocator hands out the freed numbers in ascending order)
+			i := int(atomic.LoadInt64(&w.frontier)) + r.Intn(3)
+			return &Op{K: OpGetattr, H: w.dead[i%len(w.dead)]}
 		default:
 			*uid++
+			atomic.AddInt64(&w.frontier, 1)
 			return &Op{K: OpCreate, H: w.dirs[0], Name: fmt.Sprintf("n%d", *uid)}
 		}
 	}
@@ -315,6 +320,7 @@ func runConc(cfg ConcCfg, seed uint64, cas int) *ConcRes {
 	if cfg.Procs > 0 {
 		runtime.GOMAXPROCS(cfg.Procs)
 	}
+	raceMode = cfg.NoCheck // set before any server exists
 	deadlockHandler = func(msg string) {
 		concMu.Lock()
 		res.Viol = append(res.Viol, Violation{Class: "deadlock", Msg: msg + "\n" + allStacks()})
@@ -466,7 +472,27 @@ func runOneHistory(cfg ConcCfg, seed uint64, cas, h int, res *ConcRes) {
 	var hist []*histOp
 	var wg sync.WaitGroup
 	done := make(chan struct{})
-	for c := 0; c < cfg.Clients; c++ {
+	nclients := cfg.Clients
+	if cfg.AbortHammer && h%2 == 1 {
+		// pairs: a request on a dead handle and the creation that is handed
+		// exactly that inode number, started together, no injected yields
+		nclients = 0
+		mon.Reset(0, true)
+		for i := range w.dead {
+			var pw sync.WaitGroup
+			pw.Add(2)
+			go func() {
+				defer pw.Done()
+				doOp(srv.API, &Op{K: []OpKind{OpGetattr, OpRead, OpLookup, OpSetattr}[i%4], H: w.dead[i], Name: "x", Count: 10})
+			}()
+			go func() {
+				defer pw.Done()
+				doOp(srv.API, &Op{K: OpCreate, H: srv.Root, Name: fmt.Sprintf("pair%d", i)})
+			}()
+			pw.Wait()
+		}
+	}
+	for c := 0; c < nclients; c++ {
 		wg.Add(1)
 		crng := rng.Sub(uint64(c) + 1)
 		capi := srv.ClientAPI()
@@ -535,7 +561,7 @@ func runOneHistory(cfg ConcCfg, seed uint64, cas, h int, res *ConcRes) {
 		select {
 		case <-done:
 		default:
-			if p0 == p1 {
+			if p0 == p1 && !raceMode {
 				addV("hang", "requests are outstanding and no disk or lock event happened for 3 s after a 40 s wait: the server is wedged\nlock monitor: %s\n%s", mustJSON(mon.Stats()), allStacks())
 			} else {
 				concMu.Lock()
@@ -580,6 +606,19 @@ func runOneHistory(cfg ConcCfg, seed uint64, cas, h int, res *ConcRes) {
 	mon.Off()
 	srv.Shutdown()
 
+	if raceMode {
+		// the lock monitor is off (it would hide races): an interleaving is
+		// identified by the recorded history itself, and it is non-trivial if
+		// requests of different clients overlapped in time
+		ls.Fingerprint = hashStr(renderHistory(hist))
+		for i := range hist {
+			for j := range hist {
+				if hist[i].Client != hist[j].Client && hist[i].Call < hist[j].Ret && hist[j].Call < hist[i].Ret {
+					ls.Contended++
+				}
+			}
+		}
+	}
 	concMu.Lock()
 	res.Histories++
 	res.Ops += len(hist)
